@@ -35,6 +35,8 @@ impl Array {
     }
 
     pub fn new_repeat(value: Variable, len: usize) -> Self {
+        #[cfg(feature = "verif")]
+        crate::verif::check_len(len);
         let element_type = value.as_type();
         let elements = std::iter::repeat_n(value, len).collect();
         Self {
